@@ -66,12 +66,12 @@ def pkgs_of(pack):
     return out
 
 
-HEAD_FORBIDDEN = {'footnote', 'caption', 'inline', 'display', 'enumerate', 'section', 'proof', 'itemize', 'tabular',
-                  'tikz', 'theorem', 'itemlab', 'verbatim', 'figure', 'minipage', 'defmac', 'usermac', 'usermac2',
-                  'usermacopt', 'usermacoptonly', 'gls', 'footcite', 'removed_ext', 'unkenv', 'twice_ext', 'mathtext', 'lstlisting',
-                  'par', 'verb', 'hspace', 'phantom'}
+HEAD_FORBIDDEN = {'display', 'enumerate', 'section', 'proof', 'itemize', 'tabular', 'tikz', 'theorem', 'itemlab',
+                  'verbatim', 'figure', 'minipage', 'defmac', 'removed_ext', 'unkenv', 'lstlisting', 'par'}
+SIDE_EFFECTS = {'footnote', 'caption', 'inline', 'usermac', 'usermac2', 'usermacopt', 'usermacoptonly', 'gls',
+                'footcite', 'twice_ext', 'mathtext'}
 # inside an argument that is duplicated by a macro (twice_ext): nothing with side effects or counters
-TWICE_FORBIDDEN = HEAD_FORBIDDEN | {'ref', 'cite', 'citeopt'} - {'verb', 'hspace', 'phantom'}
+TWICE_FORBIDDEN = HEAD_FORBIDDEN | SIDE_EFFECTS | {'ref', 'cite', 'citeopt'}
 
 
 class Gen:
